@@ -31,6 +31,9 @@ type MatSpec struct {
 	// sums then depend on the order of additions in the last bits, and scores are compared
 	// with the tolerance tol() instead of exactly.
 	Div int `json:"div,omitempty"`
+	// Shrink divides every score by 2^Shrink (exactly): a matrix in very small units, e.g.
+	// 2^-40 = 9e-13 (log-probabilities scaled down, per-base error rates).
+	Shrink int `json:"shrink,omitempty"`
 	// OpenDiv divides the gap-open score alone (0 = 1; 2 or 4, so the quotient is exact): whole
 	// pair and gap scores with a fractional gap-open such as -0.5.
 	OpenDiv int `json:"open_div,omitempty"`
@@ -43,7 +46,7 @@ func (s MatSpec) tol() float64 {
 	if s.Named != "" || s.Div <= 1 || s.Div&(s.Div-1) == 0 {
 		return 0
 	}
-	return 1e-9
+	return math.Ldexp(1e-9, -s.Shrink)
 }
 
 // near: equal, or within tol (equal infinities are equal).
@@ -87,6 +90,12 @@ func (s MatSpec) build() (m align.SubstitutionMatrix, r ref.Matrix, err error) {
 	}
 	if s.Div > 1 {
 		sc /= float64(s.Div)
+	}
+	if s.Shrink != 0 {
+		if s.Shrink < 0 || s.Shrink > 60 {
+			return nil, nil, fmt.Errorf("malformed matrix spec")
+		}
+		sc = math.Ldexp(sc, -s.Shrink)
 	}
 	defer func() {
 		if s.InfGaps {
@@ -221,6 +230,9 @@ func genMatSpec(t *rapid.T, o matOpts) MatSpec {
 	s.Scale = rapid.SampledFrom([]int{0, 0, 0, 0, 1000003, 1 << 25, 16777217, 7}).Draw(t, "scale")
 	if s.Scale == 0 {
 		s.Div = rapid.SampledFrom([]int{0, 0, 0, 0, 0, 8, 10, 10, 3}).Draw(t, "div")
+	}
+	if rapid.IntRange(0, 15).Draw(t, "shrink") == 7 {
+		s.Shrink = rapid.SampledFrom([]int{40, 31, 60}).Draw(t, "by")
 	}
 	s.InfGaps = rapid.IntRange(0, 24).Draw(t, "infGaps") == 11
 	s.Open = rapid.IntRange(o.openLo, o.openHi).Draw(t, "open")
@@ -464,6 +476,9 @@ func matDesc(s MatSpec) string {
 	if s.Div > 1 {
 		d += fmt.Sprintf(" (all scores /%d)", s.Div)
 	}
+	if s.Shrink != 0 {
+		d += fmt.Sprintf(" (all scores /2^%d)", s.Shrink)
+	}
 	if s.OpenDiv > 1 {
 		d += fmt.Sprintf(" (open /%d)", s.OpenDiv)
 	}
@@ -504,6 +519,9 @@ func realAlignCases(opens []int, sizes []int, emit func(AlignCase) bool) bool {
 			{"GGGGCAGCAGTTTT", "GGGGCAGTTTT"}, {"ATATATATCGCGCG", "ATATCGCGCGCG"}} {
 			for _, local := range []bool{false, true} {
 				ms := []MatSpec{dna(1, -4, -1, open), dna(1, -1, -1, open), dna(2, -3, -2, open)}
+				tiny := dna(2, -3, -2, open) // the same in units of 2^-40
+				tiny.Shrink = 40
+				ms = append(ms, tiny)
 				if open != 0 {
 					frac := dna(2, -3, -1, open) // whole scores, gap-open a quarter of open (-0.5, -1.5)
 					frac.OpenDiv = 4
